@@ -28,12 +28,14 @@ func init() {
 			need(m, &out, "rewind_state_at_eof", 50)
 			need(m, &out, "rewind_state_before_first_call", 50)
 			need(m, &out, "repeated_rewinds", 200)
+			need(m, &out, "long_stream_rewinds", 500)
 			return out
 		},
 	})
 }
 
 func runC20(c *mon.Ctx) {
+	runC20Long(c)
 	n := c.Pick(120, 1500)
 	for i := int64(0); i < n; i++ {
 		if !c.Mine("streams", i) {
@@ -72,7 +74,7 @@ func runC20(c *mon.Ctx) {
 					} else {
 						cfg.Chunk = nil
 					}
-					rewindCase(c, i, s, m, cfg, fresh, k, k2)
+					rewindCase(c, "streams", i, s, m, cfg, fresh, k, k2)
 				}
 			}
 		}
@@ -82,7 +84,41 @@ func runC20(c *mon.Ctx) {
 	}
 }
 
-func rewindCase(c *mon.Ctx, idx int64, s *gen.Stream, m *gen.Model, cfg DemuxCfg, fresh *DemuxRun, k, k2 int) {
+// longStreams: enough packets per PID (≥ 16, so that continuity counters wrap) for residue that only shows when the counters line up.
+func runC20Long(c *mon.Ctx) {
+	n := c.Pick(30, 400)
+	for i := int64(0); i < n; i++ {
+		if !c.Mine("long", i) {
+			continue
+		}
+		r := c.Rng("long", i)
+		var s *gen.Stream
+		var m *gen.Model
+		for {
+			m = gen.RandomModel(r, gen.ModelOpts{MaxPES: 3, MaxPMT: 1, MaxSI: 1, MaxUnits: 12, MaxPESLen: 1500})
+			s = m.Build(r)
+			if len(s.Packets) >= 80 && len(s.Packets) <= 400 {
+				break
+			}
+		}
+		for _, ps := range []int{188, 0} {
+			cfg := DemuxCfg{PacketSize: ps, Reader: "seek", API: "data"}
+			fresh := RunDemux(s.Bytes, cfg)
+			if fresh.Panic != "" {
+				continue
+			}
+			for k := 0; k <= fresh.Calls; k++ {
+				if !c.Thorough() && (k+int(i))%2 == 1 {
+					continue
+				}
+				rewindCase(c, "long", i, s, m, cfg, fresh, k, -1)
+				c.Count("long_stream_rewinds")
+			}
+		}
+	}
+}
+
+func rewindCase(c *mon.Ctx, stage string, idx int64, s *gen.Stream, m *gen.Model, cfg DemuxCfg, fresh *DemuxRun, k, k2 int) {
 	dmx, tap := NewDemuxerFor(s.Bytes, cfg)
 	call := 0
 	step := func() (Item, bool) {
@@ -97,7 +133,7 @@ func rewindCase(c *mon.Ctx, idx int64, s *gen.Stream, m *gen.Model, cfg DemuxCfg
 		})
 		call++
 		if p {
-			c.Violate("C20/panic", "streams", idx, fmt.Sprintf("%v\n%s", v, st), nil)
+			c.Violate("C20/panic", stage, idx, fmt.Sprintf("%v\n%s", v, st), nil)
 			return it, false
 		}
 		return it, true
@@ -141,15 +177,15 @@ func rewindCase(c *mon.Ctx, idx int64, s *gen.Stream, m *gen.Model, cfg DemuxCfg
 		var n int64
 		var err error
 		if p, v, st := mon.Guarded(func() { n, err = dmx.Rewind() }); p {
-			c.Violate("C20/rewind-panic", "streams", idx, fmt.Sprintf("%v\n%s", v, st), data)
+			c.Violate("C20/rewind-panic", stage, idx, fmt.Sprintf("%v\n%s", v, st), data)
 			return false
 		}
 		if n != 0 || err != nil {
-			c.Violate("C20/rewind-result:"+state, "streams", idx, fmt.Sprintf("Rewind() = (%d, %v), want (0, nil)", n, err), data)
+			c.Violate("C20/rewind-result:"+state, stage, idx, fmt.Sprintf("Rewind() = (%d, %v), want (0, nil)", n, err), data)
 			return false
 		}
 		if len(tap.Seeks) == 0 || tap.Seeks[len(tap.Seeks)-1] != 0 {
-			c.Violate("C20/no-seek-to-zero:"+state, "streams", idx, fmt.Sprintf("seeks observed: %v", tap.Seeks), data)
+			c.Violate("C20/no-seek-to-zero:"+state, stage, idx, fmt.Sprintf("seeks observed: %v", tap.Seeks), data)
 		}
 		return true
 	}
@@ -185,7 +221,7 @@ func rewindCase(c *mon.Ctx, idx int64, s *gen.Stream, m *gen.Model, cfg DemuxCfg
 		got = append(got, it)
 	}
 	if d := itemsEqual(got, fresh.Items); d != "" {
-		c.Violate("C20/differs-from-fresh:"+state+":"+cfg.API+":"+sizeCls(cfg.PacketSize), "streams", idx, "after rewind vs fresh demuxer: "+d, data)
+		c.Violate("C20/differs-from-fresh:"+state+":"+cfg.API+":"+sizeCls(cfg.PacketSize), stage, idx, "after rewind vs fresh demuxer: "+d, data)
 	}
 	c.Count("rewinds_checked")
 	c.Case(mon.HashStr(fmt.Sprint(idx, cfg.API, cfg.PacketSize, k, k2, cfg.Chunk != nil)), k > 0)
